@@ -53,6 +53,7 @@ Profile profile_for(const std::string &prop, int tier) {
     }
     else if (prop == "C10") { f.misuse = true; f.annos = f.utcs = f.users = true; f.reads_fsr = f.reads_stats = f.reads_anno = f.reads_utc = f.reads_user = f.reads_defs = f.reads_conv = true;
         f.max_samples = 5000; f.max_annos = 10; f.max_utcs = 10; f.max_users = 4; f.wide_ids = true; f.vsr_sigs = true; f.twr_share = 0.3; }
+    if (prop == "C17" || prop == "C03" || prop == "C19") { f.omit_ops = true; f.cblocks = true; f.no_omission = false; }     // omitted blocks are part of these properties' domains
     return f;
 }
 
@@ -175,8 +176,8 @@ Plan gen_plan(const Profile &pf, uint64_t seed) {
         s.p[1] = pick_param(r, 1, pf, tmp.sdf);
         s.p[3] = pick_param(r, 3, pf, 0);
         s.p[4] = pick_param(r, 4, pf, 0);
-        static const uint32_t dfs[] = {0, 2, 3, 10, 100};
-        s.p[5] = dfs[r.below(5)]; s.p[6] = dfs[r.below(5)];
+        static const uint32_t dfs[] = {0, 2, 3, 10, 100, 1};
+        s.p[5] = dfs[r.below(6)]; s.p[6] = dfs[r.below(6)];
         if (pf.prop == "C11" && s.p[5] == 100 && r.chance(0.8)) s.p[5] = dfs[1 + r.below(3)];
         if (pf.prop == "C12" && s.p[6] == 100 && r.chance(0.8)) s.p[6] = dfs[1 + r.below(3)];
         s.nd = approx_norm(s.dtype, s.p);
